@@ -153,6 +153,9 @@ func c18cases(tier string) []c18case {
 		{[]string{"sample"}, []string{"wthr"}, []c18flow{{From: 0, To: 1, Kind: "start"}, {From: 1, To: 0, Kind: "catch"}}},
 		{[]string{"sample", "task"}, []string{"wthr", "wtriv"}, []c18flow{{From: 0, To: 2, Kind: "start"}, {From: 2, To: 0, Kind: "catch"}}},
 		{[]string{"thr1"}, []string{"wtask"}, nil}, // a throw event without a message flow
+		// one throw event passed by two tokens: two throws, two instances of the waiting process
+		{[]string{"thrtwo"}, []string{"wtask"}, []c18flow{{From: 0, To: 1, Kind: "start"}}},
+		{[]string{"thrtwo"}, nil, nil},
 		// one process listening TWICE, each catch event woken by its own message flow (the second throw only after the
 		// driver answered the task in between): a wake-up must not carry over to the next catch event
 		{[]string{"thr2t", "cat2"}, nil, []c18flow{{From: 0, To: 1, Kind: "catch"}, {From: 0, To: 1, Kind: "catch2", Src: "h2"}}},
@@ -294,6 +297,13 @@ func c18graph(id, shape string, executable bool) *eng.Graph {
 		chain(st, task("A"), throw(), task("B"), throwN("h2"), task("C"), en)
 	case "cat2": // two catch events in sequence, each woken by its own message flow
 		chain(st, catch(), catchN("c2"), task("A"), en)
+	case "thrtwo": // two tokens pass ONE throw event (a fork whose branches meet at the event without a join)
+		f := g.Add("parallelGateway", "f", "")
+		h := throw()
+		chain(st, f)
+		chain(f, task("A"), h)
+		chain(f, task("B"), h)
+		chain(h, task("C"), en)
 	case "wthr":
 		chain(st, task("A"), throw(), en)
 	case "cat":
